@@ -1,6 +1,6 @@
 //! C06 — enrichment reports exact hypergeometric tail probabilities and fold changes.
 
-use crate::build::{via_builder, Finish};
+use crate::build::via_binary;
 use crate::exact::{hypergeom_tail, hypergeom_tail_large};
 use crate::gen::pick;
 use crate::model::*;
@@ -31,11 +31,12 @@ pub fn fixed_facts() -> Facts {
     let mut f = Facts::default();
     f.terms.push(TermFact { id: ROOT, name: "root".into(), obsolete: false, replacement: None });
     for m in 0..20u32 {
-        f.terms.push(TermFact { id: 501 + m, name: format!("mid{m}"), obsolete: false, replacement: None });
+        f.terms.push(TermFact { id: 501 + m, name: format!("mid{m}"), obsolete: m == 4, replacement: None });
         f.edges.push((501 + m, ROOT));
     }
     for i in 1..=N_LEAVES {
-        f.terms.push(TermFact { id: i, name: format!("leaf{i}"), obsolete: false, replacement: None });
+        // every ninth leaf is flagged obsolete (some also name a replacement): the flags must not matter
+        f.terms.push(TermFact { id: i, name: format!("leaf{i}"), obsolete: i % 9 == 4, replacement: if i % 27 == 4 { Some(i + 1) } else { None } });
         f.edges.push((i, 501 + (i - 1) / 21));
     }
     for k in 0..3 {
@@ -65,7 +66,8 @@ struct Fixture {
 thread_local! {
     static FIX: Fixture = {
         let f = fixed_facts();
-        let ont = via_builder(&f, Finish::Minimal).expect("fixed ontology");
+        // loaded from own v3 bytes so that obsolete flags and replacements are present
+        let ont = via_binary(&f, 3).expect("fixed ontology");
         let model = Model::new(&f);
         let all_ids = model.ids.clone();
         Fixture { ont, model, all_ids }
@@ -102,31 +104,18 @@ fn large_linked(rec: usize, leaf_id: u32) -> bool {
 
 thread_local! {
     static BIG: Ontology = {
-        use hpo::annotations::{GeneId, OmimDiseaseId, OrphaDiseaseId};
-        use hpo::builder::Builder;
-        let mut b = Builder::new();
-        b.new_term("root", 1u32);
+        let mut f = Facts::default();
+        f.terms.push(TermFact { id: 1, name: "root".into(), obsolete: false, replacement: None });
         for id in 2..=BIG_M + 1 {
-            b.new_term("leaf", id);
+            f.terms.push(TermFact { id, name: "leaf".into(), obsolete: id % 11 == 3, replacement: None });
+            f.edges.push((id, 1));
         }
-        let mut b = b.terms_complete();
-        for id in 2..=BIG_M + 1 {
-            b.add_parent(1u32, id).unwrap();
-        }
-        let mut b = b.connect_all_terms();
         for (r, (kind, rid, _, _)) in LARGE_RECORDS.iter().enumerate() {
-            for id in 2..=BIG_M + 1 {
-                if large_linked(r, id) {
-                    let t = hpo::HpoTermId::from_u32(id);
-                    match *kind {
-                        GENE => b.annotate_gene(GeneId::from(*rid), "g", t).unwrap(),
-                        OMIM => b.annotate_omim_disease(OmimDiseaseId::from(*rid), "o", t).unwrap(),
-                        _ => b.annotate_orpha_disease(OrphaDiseaseId::from(*rid), "p", t).unwrap(),
-                    }
-                }
-            }
+            let terms: Vec<u32> = (2..=BIG_M + 1).filter(|id| large_linked(r, *id)).collect();
+            f.recs[*kind].push(RecFact { id: *rid, name: "r".into(), terms });
         }
-        b.calculate_information_content().unwrap().build_minimal()
+        // HP:0000118 is one of the leaves, so `from_bytes` finds both default roots
+        via_binary(&f, 3).expect("large ontology")
     };
 }
 
@@ -390,7 +379,7 @@ impl Property for C06 {
         "C06"
     }
     fn rule(&self) -> String {
-        "Fixed two-level ontology (root, 20 inner nodes, 420 leaves; 30 records per kind with the same ids in every kind, annotated to pseudo-random K-subsets of the leaves, K from 1 to 420 incl. 168..172). Generated per case: a background (subset of the terms, leaves only or with inner nodes/root so that K also arises by inheritance; sizes biased to 1..30, 160..182 and up to 441) and a sample drawn from it; k-sweep cases fix N, K, n and build a sample for every feasible k. A small share of the cases (about 2 %) uses a second fixture of real-HPO size: a flat ontology with 20 000 leaves and 10 records with K from 1 to 19 000; background = all terms / all leaves / every s-th leaf, sample = k linked + n-k unlinked terms (n up to 2500), exact tail by a multiplicative big-integer recurrence, tolerance 1e-8. All three enrichment functions. Oracle: result ids = records linked to >=1 sample term, each once; count = k; p-value vs P[X>=k] computed with exact big integers (Pascal triangle, one rounding), relative 1e-9; fold = (k/n)/(K/N) relative 1e-12; 0<=p<=1 and p non-increasing in k along a sweep, both exact. evaluations = (record, N, K, n, k) tuples. Non-trivial = 0<k<min(K,n) and K<N; distinct = distinct (N,K,n,k) tuples (plus distinct sweeps).".into()
+        "Fixed two-level ontology loaded from own v3 bytes (root, 20 inner nodes, 420 leaves, every ninth leaf and one inner node flagged obsolete; 30 records per kind with the same ids in every kind, annotated to pseudo-random K-subsets of the leaves, K from 1 to 420 incl. 168..172). Generated per case: a background (subset of the terms, leaves only or with inner nodes/root so that K also arises by inheritance; sizes biased to 1..30, 160..182 and up to 441) and a sample drawn from it; k-sweep cases fix N, K, n and build a sample for every feasible k. A small share of the cases (about 2 %) uses a second fixture of real-HPO size: a flat ontology with 20 000 leaves and 10 records with K from 1 to 19 000; background = all terms / all leaves / every s-th leaf, sample = k linked + n-k unlinked terms (n up to 2500), exact tail by a multiplicative big-integer recurrence, tolerance 1e-8. All three enrichment functions. Oracle: result ids = records linked to >=1 sample term, each once; count = k; p-value vs P[X>=k] computed with exact big integers (Pascal triangle, one rounding), relative 1e-9; fold = (k/n)/(K/N) relative 1e-12; 0<=p<=1 and p non-increasing in k along a sweep, both exact. evaluations = (record, N, K, n, k) tuples. Non-trivial = 0<k<min(K,n) and K<N; distinct = distinct (N,K,n,k) tuples (plus distinct sweeps).".into()
     }
     fn assumptions(&self) -> Vec<String> {
         vec![
